@@ -128,6 +128,17 @@ CLAIMS = {
             "cell shows with the specification, including 'error => nothing changed' and exact downward growth.",
             TRUST + "Weakest reading: a block row longer than the region that only spills into blank cells may either raise or be "
             "shown from c0; any exception class counts as an error; column bounds are within the array width.", "5/C04"),
+    "C08": ("TLA+ state machine of Input (Input.tla: environment actions incl. the two halves of a thread-safe callback, "
+            "SigInt, Tick; main-thread actions per critical section of _send): TLC model-checks all interleavings for small "
+            "constants, generates schedules, and validates recorded histories of the real Input under virtual time (InputTrace.tla)",
+            "The real Input runs on a pty with curtsies.input's time/select/os replaced by deterministic doubles; TLC-generated "
+            "and seeded schedules (arrivals, bursts across the 1024-byte read, unget, three trigger kinds, split thread-safe "
+            "callbacks, real SIGINTs, ticks, timeouts 0/2/None, paste thresholds 8/1/None) end with a drain; TLC checks "
+            "once-in-order delivery per source, scheduled-event timing and order, no blocking/None while deliverable, None not "
+            "before the timeout, paste events. The design model found the early-None defect (two stale wake-ups) that was then "
+            "reproduced on the real code and fixed.",
+            TRUST + "Interleavings are exhaustive in the model and replayed at the code's own yield points (select/time/read); "
+            "preemption inside CPython bytecode is not enumerated.", "5/C08"),
 }
 
 NOT_BUILT = "check not built yet at this commit (planned with the same TLA+ technique, see DESIGN.md section 5)"
